@@ -121,10 +121,12 @@ Record sib := mkSib { s_name : str; s_ident : option str; s_rename : bool }.
 (* for element in objects: if element == obj: continue   (identity comparison: position i) *)
 Definition others (i : nat) (objs : list sib) : list sib := firstn i objs ++ skipn (S i) objs.
 
-(* element.name == identifier or ("EDIF.identifier" in element.data and element[...] == identifier):
-   both comparisons are case-sensitive *)
+(* (element.name is not None and element.name.lower() == identifier.lower()) or
+   ("EDIF.identifier" in element.data and element["EDIF.identifier"].lower() == identifier.lower()):
+   both comparisons ignore case (repaired by cd45bba; they used to be case-sensitive) *)
 Definition clash (x : str) (e : sib) : bool :=
-  str_eqb (s_name e) x || match s_ident e with Some v => str_eqb v x | None => false end.
+  str_eqb (lower (s_name e)) (lower x) ||
+  match s_ident e with Some v => str_eqb (lower v) (lower x) | None => false end.
 
 Definition conflicts_good (i : nat) (x : str) (objs : list sib) : bool :=
   forallb (fun e => negb (clash x e)) (others i objs).
@@ -144,8 +146,8 @@ Arguments Ok {A} a.
 Arguments OutOfFuel {A}.
 Arguments IndexError {A}.
 
-(* _conflicts_fix: recursive in the source; the un-suffixed identifier is returned in its ORIGINAL
-   letter case although the comparison was made on the lower-cased string *)
+(* _conflicts_fix: recursive in the source; the un-suffixed identifier is returned in its original
+   letter case, suffixed ones are lower-cased; the comparison ignores case *)
 Fixpoint conflicts_fix (fuel : nat) (i : nat) (identifier : str) (objs : list sib) : res str :=
   match fuel with
   | O => OutOfFuel
